@@ -80,7 +80,11 @@ def ops_for(cls):
     return ops
 
 
-OPS = {c: ops_for(c) for c in CLASSES}
+OPS = {c: ops_for(c) for c in CLASSES}          # core alphabet: exhaustive to length 3 (4)
+# extended alphabet (exhaustive to length 2, random beyond): a numpy-scalar sampling frequency, reads of the
+# frequency axis, and the caller changing *its own* array in place, with and without re-assigning it
+EXTRA = [["set", "sampling", "np64:4.0"], ["freq"], ["mutate"], ["mutate_set"]]
+OPS_EXT = {c: OPS[c] + EXTRA for c in CLASSES}
 
 
 def same(a, b, exact=False):
@@ -110,13 +114,13 @@ def _pool_name(x):
     return None
 
 
-def fresh_of(p, cls):
+def fresh_of(p, cls, ident=None):
     """PSD and frequency axis of a freshly constructed object with the attribute
     values read back from p (memoised: the fresh object is a pure function of
     the class, the data and the attribute values)."""
     sp = SPECS[cls]
     a = {k: getattr(p, k) for k in sp["init"]}
-    name = _pool_name(np.asarray(p.data))
+    name = ident if ident is not None else _pool_name(np.asarray(p.data))
     key = (cls, name, tuple(sorted((k, repr(v)) for k, v in a.items())), p.sides) if name else None
     if key is not None and key in _FRESH:
         return _FRESH[key]
@@ -130,6 +134,16 @@ def fresh_of(p, cls):
     return r
 
 
+def _ident_of(arr):
+    for name, v in POOL.items():
+        if v.shape != arr.shape or np.iscomplexobj(v) != np.iscomplexobj(arr):
+            continue
+        for k in range(0, 64):
+            if np.array_equal(arr, v * 2.0 ** k):
+                return (name, k)
+    raise RuntimeError("caller array lost track of its origin")
+
+
 class HistFail(Exception):
     def __init__(self, kind, step, op, msg):
         Exception.__init__(self, msg)
@@ -139,9 +153,17 @@ class HistFail(Exception):
 def run_history(cls, d0, hist):
     """Runs one history; returns nontrivial flag; raises HistFail."""
     sp = SPECS[cls]
-    p = sp["ctor"](POOL[d0], dict(sp["init"]))
+    arr = POOL[d0].copy()          # the caller's own array
+    ident = (d0, 0)                # the object's data are POOL[name] * 2**k
+    p = sp["ctor"](arr, dict(sp["init"]))
     computed = False      # a PSD has been computed
     changed_after = False  # an assignment changed a value after that
+
+    def data_ok():
+        exp = POOL[ident[0]] * (2.0 ** ident[1]) if ident[1] else POOL[ident[0]]
+        cur = np.asarray(p.data)
+        return cur.shape == exp.shape and np.array_equal(cur, exp) and np.iscomplexobj(cur) == np.iscomplexobj(exp)
+
     for i, op in enumerate(hist):
         kind = op[0]
         try:
@@ -151,9 +173,35 @@ def run_history(cls, d0, hist):
             elif kind == "read":
                 _ = p.psd
                 computed = True
+            elif kind == "freq":
+                _ = p.frequencies()
+                _ = p.df
+            elif kind == "mutate":
+                # the caller scales its own array in place and does NOT assign it: the object keeps its samples
+                arr *= 2
+                if not data_ok():
+                    raise HistFail("data-aliased", i, op, "the object's data changed when the caller modified its own array in place")
+            elif kind == "mutate_set":
+                arr *= 2
+                old_ident = ident
+                p.data = arr
+                ident = (ident[0], ident[1] + 1) if arr.shape == POOL[ident[0]].shape and np.array_equal(arr, POOL[ident[0]] * 2.0 ** (ident[1] + 1)) else None
+                if ident is None:
+                    # arr no longer derives from the object's data (a 'mutate' happened before a 'set data'): recompute identity
+                    ident = _ident_of(arr)
+                if not data_ok():
+                    raise HistFail("assignment-lost", i, op, "after assigning the caller's array scaled in place, data does not hold the new samples")
+                if computed:
+                    changed_after = True
             elif kind == "set":
                 attr, v = op[1], op[2]
-                val = POOL[v] if attr == "data" else v
+                if attr == "data":
+                    arr = POOL[v].copy()
+                    val = arr
+                elif isinstance(v, str) and v.startswith("np64:"):
+                    val = np.float64(float(v[5:]))
+                else:
+                    val = v
                 old = getattr(p, attr)
                 snapshot = None
                 try:
@@ -173,6 +221,7 @@ def run_history(cls, d0, hist):
                 # assignment would otherwise be invisible to the differential)
                 cur = getattr(p, attr)
                 if attr == "data":
+                    ident = (v, 0)
                     okv = (np.asarray(cur).shape == val.shape and np.array_equal(cur, val)
                            and np.iscomplexobj(cur) == np.iscomplexobj(val)
                            and p.datatype == ("complex" if np.iscomplexobj(val) else "real") and p.N == len(val))
@@ -207,7 +256,11 @@ def run_history(cls, d0, hist):
             raise HistFail("exception", i, op, "operation %s raised %s: %s" % (op, type(e).__name__, str(e)[:80]))
     try:
         v = p.psd
-        f = fresh_of(p, cls)
+        if not data_ok():
+            raise HistFail("data-changed", len(hist), None, "the object's data no longer hold the samples that were assigned")
+        f = fresh_of(p, cls, ident)
+    except HistFail:
+        raise
     except Exception as e:   # noqa
         raise HistFail("exception", len(hist), None, "final read raised %s: %s" % (type(e).__name__, str(e)[:80]))
     if not same(v, f.psd):
@@ -226,6 +279,8 @@ def culprit(hist):
     for op in reversed(hist):
         if op[0] in ("set", "reassign"):
             return "%s:%s" % (op[0], op[1])
+        if op[0] in ("mutate", "mutate_set", "freq"):
+            return op[0]
     return "none"
 
 
@@ -238,16 +293,16 @@ def check_one(ctx, cls, d0, hist):
                         {"replay_case": {"cls": cls, "d0": d0, "hist": hist}})
 
 
-def enum_batches(maxlen, classes):
+def enum_batches(maxlen, classes, ext=False):
     def gen(tier):
         for cls in classes:
-            n = len(OPS[cls])
+            n = len((OPS_EXT if ext else OPS)[cls])
             for d0 in ("r12", "c12"):
                 if maxlen <= 2:
-                    yield {"cls": cls, "d0": d0, "first": None, "len": maxlen}
+                    yield {"cls": cls, "d0": d0, "first": None, "len": maxlen, "ext": ext}
                 else:
                     for first in range(n):
-                        yield {"cls": cls, "d0": d0, "first": first, "len": maxlen}
+                        yield {"cls": cls, "d0": d0, "first": first, "len": maxlen, "ext": ext}
     return gen
 
 
@@ -258,7 +313,7 @@ def body_batch_or_single(ctx, case):
         ctx.cls(cls, d0[0], "len%d" % len(case["hist"]))
         ctx.nontrivial(nt)
         return
-    ops = OPS[cls]
+    ops = (OPS_EXT if case.get("ext") else OPS)[cls]
     L = case["len"]
     count = 0
     ntc = 0
@@ -293,8 +348,9 @@ def body_batch_or_single(ctx, case):
         raise first_fail
 
 
-@sub("C07.len2", enum=enum_batches(2, CLASSES), exhaustive=True, shards_quick=8, shards_thorough=8,
-     doc="exhaustive: every history of length 1 and 2, all 12 classes x real/complex initial data")
+@sub("C07.len2", enum=enum_batches(2, CLASSES, ext=True), exhaustive=True, shards_quick=8, shards_thorough=8,
+     doc="exhaustive: every history of length 1 and 2 over the extended alphabet (core + numpy-scalar sampling, frequency-axis reads, "
+         "caller array changed in place with/without re-assignment), all 12 classes x real/complex initial data")
 def c07_len2(ctx, case):
     body_batch_or_single(ctx, case)
 
@@ -344,12 +400,12 @@ def c07_len4(ctx, case):
 def long_case(draw):
     cls = draw(st.sampled_from(CLASSES))
     d0 = draw(st.sampled_from(["r12", "c12", "r15", "c15", "r12c"]))
-    n = len(OPS[cls])
-    idx = draw(st.lists(st.integers(0, n - 1), min_size=4, max_size=30))
-    return {"cls": cls, "d0": d0, "hist": [OPS[cls][i] for i in idx]}
+    n = len(OPS_EXT[cls])
+    idx = draw(st.lists(st.integers(0, n - 1), min_size=3, max_size=30))
+    return {"cls": cls, "d0": d0, "hist": [OPS_EXT[cls][i] for i in idx]}
 
 
-@sub("C07.long", strategy=long_case(), quick=1500, thorough=40000, shards_quick=4,
-     doc="Hypothesis: histories of 4..30 operations over the same alphabet, same fresh-object oracle")
+@sub("C07.long", strategy=long_case(), quick=4000, thorough=40000, shards_quick=4,
+     doc="Hypothesis: histories of 3..30 operations over the extended alphabet, same fresh-object oracle")
 def c07_long(ctx, case):
     body_batch_or_single(ctx, case)
